@@ -250,6 +250,10 @@ class Ctx:
         for b in broken_theorems:
             self.add_violation(b, {"kind": "theorem", "detail": b}, no_input=True)
 
+        # timing-dependent recorded findings cannot be replayed deterministically: they are listed on every run
+        for f in self.known_db.get("findings", []):
+            if f.get("timing_dependent") and self.pid in f.get("properties", []):
+                self.add_known(f["id"], f["what"])
         # ---- output
         rc = 0
         for k in self.known:
@@ -555,8 +559,21 @@ def triage_gw(ctx, viols, stalls, stall_props=(), monitor_props=None):
         ctx.add_violation("%s: monitor %s/%s on connection %s resource %s at trace line %d (contexts %s)" % (
             ctx.pid, v["prop"], v["kind"], v["c"], v["r"], v["line"], ",".join(contexts) or "-"),
             {"kind": "gw", "history": keep, "violation": v, "contexts": contexts})
-    for path, msg in getattr(ctx, "last_crashes", [])[:2]:
+    for path, msg in getattr(ctx, "last_crashes", [])[:4]:
         hist = path[:-len(".trace")] + ".history.json"
+        # a crash is attributed to a recorded finding by its panic message and the function on top of the stack
+        try:
+            raw = bytes.fromhex(open(path).read().split("\t", 1)[1].strip()).decode("utf-8", "replace")
+        except Exception:
+            raw = msg
+        kf = None
+        for f in ctx.known_db.get("findings", []):
+            need = f.get("crash_contains")
+            if need and ctx.pid in f.get("properties", []) and all(x in raw for x in need):
+                kf = f
+        if kf:
+            ctx.add_known(kf["id"], kf["what"])
+            continue
         keep = os.path.join(REPLAYS, "%s-crash-%s" % (ctx.pid, os.path.basename(hist)))
         subprocess.run(["cp", hist, keep])
         if ctx.pid in ("C15", "C20"):
